@@ -103,6 +103,42 @@ let stream_case entry probe writes ending script wf =
     | _ -> StreamModel.entry_minify sk f ore sc wfo in
   (match r with StreamModel.ROk -> "ok" | StreamModel.RErr e -> "E" ^ string_of_int (int_of_nat e)) ^ " " ^ hexe out
 
+
+(* ---- Cli ---- *)
+let zeros n = Stdlib.List.init n (fun _ -> BinNums.Z0)
+let cliops kind dst sizes =
+  let outs = if sizes = "" || sizes = "-" then [] else Stdlib.List.map (fun x -> zeros (int_of_string x)) (split ',' sizes) in
+  let d = hexd dst in
+  if kind = "none" then "" else
+  let sh = match kind with
+    | "inplace" -> CliModel.InPlace (d, outs)
+    | "inplacefail" -> CliModel.InPlaceWriteFails (d, outs)
+    | "separate" -> CliModel.Separate ([], d, outs)
+    | "bundleonto" -> CliModel.BundleOnto ([], d, outs)
+    | _ -> failwith "shape" in
+  Stdlib.String.concat "|" (Stdlib.List.map (function
+    | CliModel.Rename (a, b) -> "rename " ^ string_of_bytes a ^ " " ^ string_of_bytes b
+    | CliModel.OpenTrunc p -> "openw " ^ string_of_bytes p
+    | CliModel.WriteApp (p, bs) -> Printf.sprintf "write %s %d" (string_of_bytes p) (Stdlib.List.length bs)
+    | CliModel.Unlink p -> "unlink " ^ string_of_bytes p) (CliModel.ops_of sh))
+let concat_case n fileshex sephex caps =
+  let files = if int_of_string n = 0 then [] else Stdlib.List.map hexd (split ',' fileshex) in
+  let r = ref (ConcatModel.cr_init files (hexd sephex)) in
+  let res = ref [] in
+  (try
+    Stdlib.List.iter (fun c ->
+      let k = nat_of_int (int_of_string c) in
+      match ConcatModel.cread (ConcatModel.read_fuel !r) !r k k with
+      | None -> res := "OUTOFFUEL" :: !res; raise Exit
+      | Some ((d, e), r') ->
+        r := r';
+        (match e with
+         | ConcatModel.RNil -> res := ("nil:" ^ hexe d) :: !res
+         | ConcatModel.REOF -> res := ("eof:" ^ hexe d) :: !res; raise Exit))
+      (if caps = "" then [] else split ',' caps)
+  with Exit -> ());
+  Stdlib.String.concat "," (Stdlib.List.rev !res)
+
 (* ---- DataUri ---- *)
 let b2s b = if b then "1" else "0"
 
@@ -116,5 +152,7 @@ let register (reg : string -> (string list -> string) -> unit) =
   reg "datauri" (function [o; m; d] -> hexe (DataUriModel.datauri_encode (hexd o) (hexd m) (hexd d)) | _ -> "BADARGS");
   reg "mediatype_min" (function [m] -> hexe (DataUriModel.mediatype_min (hexd m)) | _ -> "BADARGS");
   reg "stream" (function [e; p; w; en; sc; wf] -> stream_case e p w en sc wf | _ -> "BADARGS");
+  reg "cliops" (function [k; d; z] -> cliops k d z | [k; d] -> cliops k d "" | _ -> "BADARGS");
+  reg "concat" (function [n; f; s; c] -> concat_case n f s c | _ -> "BADARGS");
   reg "tokbuf" (function [t; o] -> tokbuf t o | _ -> "BADARGS");
   reg "json_tree" (function [t] -> show_events (JsonSpec.events_of JsonModel.SValue (parse_tree t)) | _ -> "BADARGS")
